@@ -1,0 +1,12 @@
+//! Verification hooks. Compiled only with `RUSTFLAGS="--cfg scylla_verif"`; with the flag off
+//! this module does not exist and nothing in the crate changes. Additive only: every hook
+//! exposes existing crate-private items to the external model-checking harness, none of
+//! them alters behaviour.
+#![allow(missing_docs, unreachable_pub, unnameable_types, dead_code)]
+
+pub mod cluster;
+pub mod conn;
+pub mod exec;
+pub mod merge;
+pub mod misc;
+pub mod tablets;
